@@ -132,14 +132,14 @@ pub fn special(run: &mut Run, rng: &mut Rng, thorough: bool) {
     let live = LiveSctp::new();
     run_sctp(run, &live, &[], false);
     for a in 0..=255u8 { run_sctp(run, &live, &[a], false); }
-    let n = if thorough { 40_000 } else { 1_200 };
+    let n = if thorough { 40_000 } else { 2_400 };       // ≈ 30 cases per base packet → ≈ 80 base packets in the quick tier
     let mut k = 0u64;
     while k < n {
         let v = gen_sctp_packet(rng);
         run_sctp(run, &live, &v, true); k += 1;
         // truncations and boundary mutations with the checksum repaired, so the walkers are reached
-        for cut in 12..v.len() { if rng.chance(1, 3) { let mut t = v[..cut].to_vec(); crc_fix(&mut t); run_sctp(run, &live, &t, true); k += 1; } }
-        for mut m in super::mutations(&v, rng, 24) { if m.len() >= 12 { for i in 0..4 { m[i] = v[i]; } crc_fix(&mut m); } run_sctp(run, &live, &m, true); k += 1; }
+        for cut in 12..v.len() { if rng.chance(1, 8) { let mut t = v[..cut].to_vec(); crc_fix(&mut t); run_sctp(run, &live, &t, true); k += 1; } }
+        for mut m in super::mutations(&v, rng, 24).into_iter().take(16) { if m.len() >= 12 { for i in 0..4 { m[i] = v[i]; } crc_fix(&mut m); } run_sctp(run, &live, &m, true); k += 1; }
         if rng.chance(1, 10) { let len = rng.range(12, 200) as usize; let mut r = rng.bytes(len); crc_fix(&mut r); run_sctp(run, &live, &r, false); k += 1; }
     }
     // framed truncations: every chunk alone with its value cut to every length (chunk length adjusted, CRC repaired)
